@@ -25,7 +25,7 @@ CLAIMED = {
  "C09": ("seeded sampling of the full TLS grid (min version x mode x authz x role x peer versions x peer certificate) with real rustls handshakes over the simulated stream against an independently configured bare rustls peer, under record chunking/latency and broken-handshake faults",
          "seeded simulation; grid oracle; handshake fault injection", "4 C09"),
  "C18": ("differential simulation of the generated extern \"C\" functions on the simulated runtime against a same-named outcome table written from the schema: all eight client operations x outcome classes (values, 256 exception codes, bad response, bad framing, I/O error, timeout in exact virtual ms, shutdown), invalid arguments, queue-full bursts without stepping the simulation, post-shutdown calls, callback/on_destroy exactly-once counting, listener state mapping; server write callbacks x every WriteResult; the same seeded runs are also interpreted by Miri (undefined behaviour in the unsafe C-ABI layer aborts the run)",
-         "seeded simulation of the C ABI on a simulated tokio runtime; differential oracle (plus the same runs interpreted by Miri)", "4 C18"),
+         "seeded simulation of the C ABI on a simulated tokio runtime; differential oracle (plus shuttle schedule exploration of transactions vs client reads/writes, and the same runs interpreted by Miri)", "4 C18"),
  "C19": ("map semantics: seeded add/update/delete/get sequences through the extern \"C\" database functions inside configure/transaction/write callbacks, interleaved with client reads over the simulated network, against model::db. Atomicity under thread pre-emption: see level_note",
          "seeded simulation; reference map model (atomicity: shuttle schedule exploration; same runs interpreted by Miri)", "4 C19"),
  "C20": ("paired replays of the C01-C06/C10-C14 workload tapes on the canonical schedule at the lowest and highest decode level and with a run-time level change injected at a tape-derived position; all observables byte-identical",
@@ -66,7 +66,7 @@ man = {
  "hooks": {"guard": "--cfg rodbus_verif_shuttle", "enable": "only the shuttle engine sets it (RUSTFLAGS in /verif/shuttle_engine/.cargo/config.toml): it swaps `use std::sync::{Arc, Mutex}` in rodbus/src/server/handler.rs for shuttle's so that handler-mutex acquisitions are scheduling points. Everything else needs no hook: the seam is dependency substitution via shadow manifests (tokio -> simtokio, tokio-serial -> simserial) and /repo sources are compiled unmodified",
            "baseline_off_cmd": "cd /repo && cargo test --workspace --no-fail-fast --offline", "source_commits": ["ff2eb44"], "add_only": True},
  "engines": [{"name": "miri", "path": "miri_engine.py", "serves_properties": ["C18", "C19"], "kind_free_text": "the seeded simulation runs of the C-ABI scenarios (no TLS) interpreted by Miri (cargo +nightly miri run): any undefined behaviour in rodbus-ffi / rodbus aborts the run with a report; event-log hashes must equal the native engine's"},
-  {"name": "shuttle", "path": "shuttle_engine", "serves_properties": ["C02", "C17", "C19"], "kind_free_text": "shuttle (seeded random + PCT schedulers) over two threads: the simulation driver with the real server (C-ABI TCP server for C19, RTU server for C02/C17) and an application thread (database transactions / work under a handler mutex); replayable schedule files"},
+  {"name": "shuttle", "path": "shuttle_engine", "serves_properties": ["C02", "C17", "C18", "C19"], "kind_free_text": "shuttle (seeded random + PCT schedulers) over two threads: the simulation driver with the real server (C-ABI TCP server for C19, RTU server for C02/C17) and an application thread (database transactions interleaved with client reads and acknowledged client writes / work under a handler mutex); replayable schedule files"},
   {"name": "sim", "path": "sim", "serves_properties": sorted(CLAIMED), "kind_free_text": "deterministic discrete-event simulation of the unmodified rodbus tasks (tokio facade: network, serial, clock, executor, select! start index), seeded choice tape, shrinking, replay"}],
  "checks": checks,
  "not_applicable": [{"property_id": p, "reason": PENDING_REASON} for p in props if p not in CLAIMED],
